@@ -3,6 +3,7 @@ package checks
 import (
 	"fmt"
 	"os"
+	"regexp"
 	"sort"
 	"strconv"
 	"strings"
@@ -143,7 +144,9 @@ func c09judge(c c09Case, b *c09built, base, got hx.Outcome) (class, detail strin
 	switch {
 	case c.Mode == "accept":
 		if len(newE)+len(newW) > 0 {
-			return "spurious", desc
+			// the kind of message is part of the class: shrinking towards another name scheme must
+			// not trade one spurious message for a different one (two causes, two findings)
+			return "spurious:" + c09msgKind(append(append([]string{}, newE...), newW...)), desc
 		}
 	case c.Kind == "default":
 		if len(newE) == 0 {
@@ -176,7 +179,38 @@ func c09classText(c c09Case, class string) string {
 	case "lost":
 		return c.Kind + " value (" + c.Mode + "ed by its schema) makes other messages disappear"
 	}
+	if strings.HasPrefix(class, "spurious:") {
+		return c.Kind + " accepted by its schema changes the outcome (" + strings.TrimPrefix(class, "spurious:") + ")"
+	}
 	return c.Kind + " " + class
+}
+
+var c09reQuoted = regexp.MustCompile(`"[^"]*"`)
+
+// c09msgKind abstracts the first (in sorted order) message to its template: quoted texts, dotted
+// paths and numbers are replaced.
+func c09msgKind(msgs []string) string {
+	sort.Strings(msgs)
+	var kinds []string
+	for _, m := range msgs {
+		m = c09reQuoted.ReplaceAllString(m, "…")
+		f := strings.Fields(m)
+		for i, w := range f {
+			if strings.Contains(w, ".") && len(w) > 1 {
+				f[i] = "…"
+			} else if _, err := strconv.Atoi(strings.Trim(w, ",:")); err == nil {
+				f[i] = "N"
+			}
+		}
+		kinds = append(kinds, strings.Join(f, " "))
+	}
+	sort.Strings(kinds)
+	for _, k := range kinds {
+		if !strings.Contains(k, "does not validate its schema") { // the summary line that accompanies every cause
+			return k
+		}
+	}
+	return kinds[0]
 }
 
 // c09signature is canonical text, no hashes, nothing order dependent.
